@@ -351,6 +351,17 @@ func (m *RModel) extLib(fn *ssa.Function, name string, args []Value) (Value, boo
 		return strings.Join(strSlice(args[0]), args[1].(string)), true
 	case "strings.Split":
 		return valStrings(strings.Split(args[0].(string), args[1].(string))), true
+	case "strings.SplitN":
+		return valStrings(strings.SplitN(args[0].(string), args[1].(string), int(args[2].(int64)))), true
+	case "strings.Cut":
+		a, b, ok := strings.Cut(args[0].(string), args[1].(string))
+		return Tuple{a, b, ok}, true
+	case "strings.Title":
+		return strings.Title(args[0].(string)), true
+	case "strings.LastIndex":
+		return int64(strings.LastIndex(args[0].(string), args[1].(string))), true
+	case "strings.Count":
+		return int64(strings.Count(args[0].(string), args[1].(string))), true
 	case "strings.Fields":
 		return valStrings(strings.Fields(args[0].(string))), true
 	case "strconv.Itoa":
